@@ -32,7 +32,7 @@ CLAIMED = {
   "text": "Every operator and every implemented non-aggregate function yields empty on an empty input, and an empty single-value argument yields empty or an error, with the other operands ranging over symbolic forms; `&` treats empty as ''.",
   "design_ref": "DESIGN.md §4 C07", "note": BASE_NOTE},
  "C08": {"technique": T + " (differential vs wide-integer / exact-rational reference)",
-  "text": "Integer + - * / div mod, unary minus and FHIR integer operands: exact when representable, empty on overflow or zero divisor, for all int32 pairs (full width). Decimal operators against exact rational arithmetic for symbolic mantissas (bounded digits, listed scales) with shopspring/decimal executed from source.",
+  "text": "Integer + - * / div mod, unary minus and FHIR integer operands: exact when representable, empty on overflow or zero divisor, for all int32 pairs (full width). Decimal operators against exact rational arithmetic for symbolic mantissas (bounded digits, listed scales) with shopspring/decimal executed from source. floor/ceiling/truncate/abs/round on Integers and Decimals (up to 22 digits, scales to 20) against exact integer arithmetic on the mantissa; any float64 detour is encoded exactly (correctly rounded decimal->float64, one fork per binade).",
   "design_ref": "DESIGN.md §4 C08", "note": BASE_NOTE},
  "C09": {"technique": T + " (differential vs reference calendar; year/month case-split, day/time/amount symbolic)",
   "text": "Rounding helpers, unit dispatch, duration and year/month conversion kernels over full ranges; Time +/- quantity wraps around midnight; Date/DateTime +/- calendar quantities equal the reference calendar computation, preserve precision, round-trip and are monotone, inside a stated calendar window and amount range.",
@@ -50,7 +50,7 @@ CLAIMED = {
   "text": "length, toChars, substring (every int32 start/length), indexOf, contains, startsWith, endsWith, replace, upper, lower against a character-based reference for every valid UTF-8 string up to the bound; the relational laws.",
   "design_ref": "DESIGN.md §4 C14", "note": BASE_NOTE},
  "C15": {"technique": T + " (full-width integer narrowing; time-of-day and offset kernels)",
-  "text": "narrow.ToInteger for all 11x11 integer type pairs over the full value range; fhirconv.ToInteger; fhir.TimeOfDay/Time/extractTimezone and fhirconv.TimeToString field round trips for every value.",
+  "text": "narrow.ToInteger for all 11x11 integer type pairs over the full value range; fhirconv.ToInteger; fhir.TimeOfDay/Time/extractTimezone and fhirconv.TimeToString field round trips for every value. String-literal escapes incl. \\uXXXX; proto<->System round trips (Date/DateTime/Time for every precision enum and zone spelling, Decimal, Integer, Quantity); Time/DateTime literals with 0-4 fraction digits re-parse from their canonical text to an equal value (no hidden sub-second state).",
   "design_ref": "DESIGN.md §4 C15", "note": BASE_NOTE},
  "C16": {"technique": T + " (function table obtained by executing the package initialiser; finite table checks pushed through the same pipeline)",
   "text": "For every entry of the base+experimental table and every accepted argument count: no arity error; every specification name present with bounds admitting its specified counts; each name bound to the implementation of that name; unimplemented names fail explicitly. Compile's own arity test (ANTLR contexts) is outside the claim.",
